@@ -195,3 +195,14 @@ def run_case(case, rng):
         case.check(ok, "beliefmdp-initial-belief-wrong", repr(b0))
     case.check(tuple(bm.actions(Belief(tuple(S), tuple([1.0] + [0.0] * (len(S) - 1))))) == tuple(A), "beliefmdp-actions", "")
     case.check(bm.discount_rate == sp.gamma, "beliefmdp-discount", "")
+
+
+
+def parent_phase(tier, seed, jobs, tmp, envf):
+    """thorough tier: the repository's own test-suite under the ambient 'filter' monitor"""
+    if tier != "thorough":
+        return [], None
+    from mon.probe.ambient import run_ambient
+    rec = run_ambient({"filter"}, tmp, envf)
+    rec["prop"] = PROP
+    return [rec], {"ambient_test_suite": rec["sample"]}
